@@ -140,9 +140,24 @@ def exec_for(it, node, fr):
     I = _I()
     if node.orelse:
         raise EngineError('for-else')
-    itv = it.ev(node.iter, fr)
     lc, k = loop_contract(it, fr, node)
-    if isinstance(itv, SSeq) or (lc is not None and lc.invariant is not None):
+    itv = None
+    if lc is not None and lc.unroll is not None and isinstance(node.iter, ast.Call) and \
+            isinstance(node.iter.func, ast.Name) and node.iter.func.id == 'range' and \
+            len(node.iter.args) == 1 and not node.iter.keywords:
+        hi = it.ev(node.iter.args[0], fr)
+        if isinstance(hi, SInt):
+            # range(<symbolic>) unrolled lc.unroll times; unwinding assertion: hi <= unroll
+            it.ctx.oblige(f'{fr.name}/loop{k}.unwind', it.compare(ast.LtE(), hi, lc.unroll),
+                          where=fr.name)
+            it.ctx.assume(it.compare(ast.LtE(), hi, lc.unroll))
+            itv = GList([(it.compare(ast.Lt(), i, hi), i) for i in range(lc.unroll)])
+        else:
+            itv = range(hi)
+    if itv is None:
+        itv = it.ev(node.iter, fr)
+    from .models import EnumSeq
+    if isinstance(itv, (SSeq, EnumSeq)) or (lc is not None and lc.invariant is not None):
         return for_with_invariant(it, node, fr, itv, lc, k)
     items = it.iterate_guarded(itv)
     for g, x in items:
@@ -179,6 +194,11 @@ def for_with_invariant(it, node, fr, seq, lc, k):
         raise EngineError(f'{fr.name}: for loop over a symbolic-length list needs a loop contract '
                           f'(loop {k})')
     tag = f'{fr.name}/loop{k}'
+    from .models import EnumSeq
+    enum_start = None
+    if isinstance(seq, EnumSeq):
+        enum_start = seq.start
+        seq = seq.seq
     n = it.models_mod.py_len(it, seq)
     extra = {'idx': 0, 'seq': seq}
     ctx.oblige(f'{tag}.init', it.truth(run_clause(it, lc.invariant, fr, extra)), where=fr.name)
@@ -190,6 +210,8 @@ def for_with_invariant(it, node, fr, seq, lc, k):
         extra['idx'] = i
         ctx.assume(it.truth(run_clause(it, lc.invariant, fr, extra)))
         x = it.getitem(seq, i)
+        if enum_start is not None:
+            x = (it.binop(ast.Add(), i, enum_start), x)
         it.assign(node.target, x, fr)
         try:
             it.ex_block(node.body, fr)
